@@ -43,6 +43,10 @@ func VerifLoadReplay(path string) error {
 	verifReplay = verifReplayFile{}
 	verifCount = map[string]int{}
 	VerifFailed = nil
+	verifLastNow = time.Time{}
+	verifTimerFn = nil
+	verifTimerArmed = false
+	verifClockSteps = nil
 	return json.Unmarshal(b, &verifReplay)
 }
 
@@ -157,7 +161,86 @@ func VerifAllocMax() int {
 	return int(d - 1<<20)
 }
 func VerifStop()          {}
-func VerifFireTimers() int { return 0 }
+
+// ---- scripted clock and timer for instrumented native replays ----
+// The native replay of package node builds node/cron.go with time.Now(), time.AfterFunc( and
+// c.timer.Reset( textually replaced by the three functions below (see harness/node/INSTRUMENT.json;
+// the copy is regenerated from /repo's current source on every run). The executor runs the
+// unmodified file on its own clock and timer model.
+
+var (
+	verifLastNow    time.Time
+	verifTimerFn    func()
+	verifTimerArmed bool
+)
+
+var verifClockSteps []int64
+var verifClockMs int64
+
+// VerifClockSteps: every later clock read first advances the clock by one of the given amounts (ms);
+// native: the choice per read comes from the replayed inputs clockstep#k (instrumented code only).
+func VerifClockSteps(ms ...int64) {
+	verifClockSteps = ms
+	verifClockMs = 1_700_000_000_000
+}
+
+// VerifNow returns the next instant of the replayed clock script (inputs now.sec#k / now.ms#k, in call
+// order), the last one again when the script is used up, the real time when there is no script.
+func VerifNow() time.Time {
+	if len(verifClockSteps) > 0 {
+		c := int(verifNext("clockstep"))
+		if c < len(verifClockSteps) {
+			verifClockMs += verifClockSteps[c]
+		}
+		return time.UnixMilli(verifClockMs)
+	}
+	k := verifCount["now.sec"]
+	if _, ok := verifReplay.Inputs[fmt.Sprintf("now.sec#%d", k)]; !ok {
+		if verifLastNow.IsZero() {
+			return time.Now()
+		}
+		return verifLastNow
+	}
+	sec := verifNext("now.sec")
+	ms := verifNext("now.ms")
+	verifLastNow = time.Unix(int64(sec), int64(ms)*1000000)
+	return verifLastNow
+}
+
+// VerifAfterFunc records the callback instead of starting a wall-clock timer; VerifFireTimers runs it.
+func VerifAfterFunc(d time.Duration, f func()) *time.Timer {
+	verifTimerFn = f
+	verifTimerArmed = true
+	t := time.NewTimer(1000 * time.Hour)
+	t.Stop()
+	return t
+}
+
+// VerifTimerReset stands for (*time.Timer).Reset on the timer returned by VerifAfterFunc.
+func VerifTimerReset(t *time.Timer, d time.Duration) bool {
+	was := verifTimerArmed
+	verifTimerArmed = true
+	return was
+}
+
+// VerifFireTimers fires the pending timers (executor: every active virtual timer, earliest first;
+// instrumented native replay: the recorded callback if it is armed). Returns how many fired.
+func VerifFireTimers() int {
+	if verifTimerArmed && verifTimerFn != nil {
+		verifTimerArmed = false
+		verifTimerFn()
+		return 1
+	}
+	return 0
+}
+
+// VerifTimersArmed is the number of timers that are currently armed.
+func VerifTimersArmed() int {
+	if verifTimerArmed {
+		return 1
+	}
+	return 0
+}
 
 // VerifIte is a branch-free conditional (an ite term in the executor).
 func VerifIte(c bool, a, b int) int {
